@@ -33,6 +33,9 @@ class Job:
         # failures located in /repo or std code are only believed after native replay (TBMC)
         self.inrepo_needs_replay = meta.get("inrepo", "exact") == "replay"
         self.optcov = [c for c in meta.get("optcov", "").split("|") if c]
+        # checks located in functions whose name contains this string are not believed (TBMC: the first
+        # pass of the first thread runs against a guess that the other thread has not accepted yet)
+        self.ignorefn = meta.get("ignorefn", "")
         self.stubs = meta.get("stubbing", "0") == "1"
         self.extra = [a for a in meta.get("kani_args", "").split(",") if a]
         # a documented panic that MUST be reported as failed check (e.g. chunk size zero)
@@ -201,6 +204,7 @@ def classify(res, prop):
     out["checks"] = checks
     ncov_total = ncov_sat = 0
     n_expected_panics = 0
+    n_undecided = 0
     for c in checks:
         st, cat, desc = c.get("status"), c.get("category"), c.get("description", "")
         if cat == "cover":
@@ -210,15 +214,22 @@ def classify(res, prop):
             ncov_total += 1
             if st == "Satisfied":
                 ncov_sat += 1
+            elif st not in ("Unreachable", "Satisfied", "Unsatisfiable"):
+                n_undecided += 1
             elif st != "Unreachable" and not any(o in desc for o in job.optcov):
                 out["inconclusive"].append(f"{job.full}: vacuity witness not satisfied: {desc} [{st}]")
             continue
         if st in ("Success", "Unreachable", "Satisfied", "Unsatisfiable"):
             continue
         if st != "Failure":
-            out["inconclusive"].append(f"{job.full}: check {c.get('id')} status {st}: {desc}")
+            n_undecided += 1
+            if n_undecided <= 3:
+                out["inconclusive"].append(f"{job.full}: check {c.get('id')} status {st}: {desc}")
             continue
         tg = tags_of(desc)
+        if job.ignorefn and not tg and job.ignorefn in c.get("function", ""):
+            out["ignored_unvalidated"] = out.get("ignored_unvalidated", 0) + 1
+            continue
         if job.expectpanic and job.expectpanic in desc and in_repo(c):
             n_expected_panics += 1
             continue
@@ -239,6 +250,8 @@ def classify(res, prop):
             out["needs_replay_only"].append(c)
         else:
             out["relevant"].append(c)
+    if n_undecided > 3:
+        out["inconclusive"].append(f"{job.full}: {n_undecided} checks undecided (solver out of memory / error / unwinding failure; see {res['log']})")
     if job.expectpanic and n_expected_panics == 0:
         out["relevant"].append({"description": f'"{prop}: the documented panic \'{job.expectpanic}\' is not raised any more"',
                                 "category": "assertion", "status": "Failure", "function": job.full,
@@ -321,15 +334,19 @@ def run_replay_dir(rdir, quiet=False):
         want = meta.get("expect_text", "")
         ran = "running 1 test" in text
         failed = ran and ("test result: FAILED" in text or rc != 0)
-        hit = failed and (want in text if want else True)
-        crashed = ran and ("SIGABRT" in text or "SIGSEGV" in text or "unsafe precondition" in text
-                           or "signal:" in text)
+        # a panic inside Kani's playback runtime (it ran out of recorded values because the native run went
+        # past the point where the solver's path ended) is an artefact, not a reproduction
+        artefact = "concrete_playback.rs" in text and not (want and want in text)
+        std_contract = "unsafe precondition(s) violated" in text
+        hit = failed and bool(want) and want in text
+        crashed = ran and ("SIGABRT" in text or "SIGSEGV" in text or "signal:" in text)
         detail[prof] = {"rc": rc, "ran": ran, "failed": failed, "matched_expected_text": hit,
-                        "crashed": crashed, "log": log}
-        if hit or (failed and not want) or (crashed and not want):
+                        "std_precondition_abort": std_contract, "crashed": crashed,
+                        "playback_artefact": artefact, "log": log}
+        if hit or std_contract or ((failed or crashed) and not want and not artefact):
             reproduced = True
         if not quiet:
-            print(f"  replay[{prof}]: ran={ran} failed={failed} matched={hit} crashed={crashed}")
+            print(f"  replay[{prof}]: ran={ran} failed={failed} matched={hit} std_precondition_abort={std_contract} crashed={crashed}")
     return reproduced, detail
 
 
